@@ -52,9 +52,9 @@ pub mod verif {
     pub static mut MMAP_OFF: [usize; MAXMAP] = [0; MAXMAP];
     pub static mut MMAP_ADDR: [usize; MAXMAP] = [0; MAXMAP];
     pub static mut MPROTECT_FAIL: bool = false;
-    /// mprotect fails once this many mappings have been released (a restoration that is refused part-way through
-    /// the injector's drop: the counter is concrete, so the refused guard's copy loop is never explored)
-    pub static mut MPROTECT_FAIL_AFTER_MUNMAPS: usize = usize::MAX;
+    /// mprotect fails once this many requests have succeeded (a restoration that is refused part-way through the
+    /// injector's drop: the counter is concrete, so the refused guard's copy loop is never explored)
+    pub static mut MPROTECT_FAIL_AFTER_OK: usize = usize::MAX;
 
     // ---- observations -------------------------------------------------------------------
     pub static mut N_MMAP: usize = 0;
@@ -287,7 +287,7 @@ pub unsafe fn mprotect(addr: *mut c_void, len: size_t, prot: c_int) -> c_int {
 pub unsafe fn mprotect_impl(addr: *mut c_void, len: size_t, prot: c_int) -> c_int {
     let k = N_MPROTECT;
     log_event(1, addr as usize);
-    if MPROTECT_FAIL || N_MUNMAP >= MPROTECT_FAIL_AFTER_MUNMAPS {
+    if MPROTECT_FAIL || N_MPROTECT >= MPROTECT_FAIL_AFTER_OK {
         return -1;
     }
     if k < MAXPROT {
